@@ -6,202 +6,81 @@ package main
 // performs a back-link write only if the source does (Gen.MemClasses.lnk*), and Proofs/C20Ptr.lean
 // proves "the pointer structure spells the abstract lists" from lnk* = true.
 //
-// Every assignment `<selector> = <expr>` of a function is normalised: locals with a `:=` definition and
-// no later plain assignment are replaced by their defining expression (closest preceding definition),
-// `(*node)(unsafe.Pointer(E))` / `(*page_header)(unsafe.Pointer(E))` are written `E`, parameters keep
-// their names.  E.g. `(*node)(unsafe.Pointer(next)).prev = p` after `if next := a.lists[class]; …`
-// becomes `a.lists[class].prev = p`.
+// The facts are read off the set of heap writes REACHABLE from an exported entry point (Malloc, Free,
+// DefragAllImproved): the entry function's own assignments to `X.field` / `X[i]` plus those of every function of
+// the package it calls (calls are followed, the callee's parameters stand for the caller's arguments), each
+// printed in the name-free normal form of canon.go.  E.g. in Free→uintptrFreeShared
+//     (*node)(unsafe.Pointer(next)).prev = p          after  if next := a.lists[class]; next != 0 {
+// is the write   N(a.lists[H(page(§0)).class]).prev = §0 .
+// So the names of locals, parameters, results and of the unexported functions, the split of the work into
+// helpers, and the order of declarations do not matter; the field names, the pointee types and the exported entry
+// points do.  C below is the one index expression of all per-class accesses of the entry point (locks.go finds it
+// and Props.C20.*_locks_own_class prove it is the locked class).
 
 import (
 	"fmt"
-	"go/ast"
-	"go/token"
-	"regexp"
+	"sort"
 	"strings"
-
-	"verif/vtrans"
 )
 
-type def struct {
-	pos token.Pos
-	rhs string
-}
-
-var pageRe = regexp.MustCompile(`([\w.\[\]]+) &\^ uintptr\(pageMask\)`)
-
-// uncast rewrites (*node)(unsafe.Pointer(E)) and (*page_header)(unsafe.Pointer(E)) as E (balanced parentheses).
-func uncast(s string) string {
-	for _, pre := range []string{"(*node)(unsafe.Pointer(", "(*page_header)(unsafe.Pointer("} {
-		for {
-			i := strings.Index(s, pre)
-			if i < 0 {
-				break
-			}
-			j, depth := i+len(pre), 1
-			for j < len(s) && depth > 0 {
-				switch s[j] {
-				case '(':
-					depth++
-				case ')':
-					depth--
-				}
-				j++
-			}
-			if depth != 0 || j >= len(s) || s[j] != ')' {
-				return s
-			}
-			s = s[:i] + s[i+len(pre):j-1] + s[j+1:]
-		}
-	}
-	return s
-}
-
-func isIdentByte(c byte) bool {
-	return c == '_' || c >= '0' && c <= '9' || c >= 'a' && c <= 'z' || c >= 'A' && c <= 'Z'
-}
-
-// writesOf returns the normalised selector assignments of a function.
-func writesOf(f *vtrans.File, recv, name string) map[string]bool {
-	fn, err := f.Func(recv, name)
-	if err != nil {
-		die(err)
-	}
-	defs := map[string][]def{}
-	reassigned := map[string]bool{}
-	ast.Inspect(fn.Body, func(n ast.Node) bool {
-		switch s := n.(type) {
-		case *ast.AssignStmt:
-			if s.Tok == token.DEFINE && len(s.Lhs) == 1 && len(s.Rhs) == 1 {
-				if id, ok := s.Lhs[0].(*ast.Ident); ok {
-					defs[id.Name] = append(defs[id.Name], def{s.Pos(), render(f, s.Rhs[0])})
-				}
-			} else if s.Tok != token.DEFINE {
-				for _, l := range s.Lhs {
-					if id, ok := l.(*ast.Ident); ok {
-						reassigned[id.Name] = true
-					}
-				}
-			}
-		case *ast.IncDecStmt:
-			if id, ok := s.X.(*ast.Ident); ok {
-				reassigned[id.Name] = true
-			}
-		}
-		return true
-	})
-	var subst func(s string, at token.Pos, depth int) string
-	subst = func(s string, at token.Pos, depth int) string {
-		if depth > 6 {
-			return s
-		}
-		var b strings.Builder
-		for i := 0; i < len(s); {
-			if !isIdentByte(s[i]) || (s[i] >= '0' && s[i] <= '9') {
-				b.WriteByte(s[i])
-				i++
-				continue
-			}
-			j := i
-			for j < len(s) && isIdentByte(s[j]) {
-				j++
-			}
-			w := s[i:j]
-			field := i > 0 && s[i-1] == '.'
-			if ds, ok := defs[w]; ok && !field && !reassigned[w] {
-				var best *def
-				for k := range ds {
-					if ds[k].pos < at && (best == nil || ds[k].pos > best.pos) {
-						best = &ds[k]
-					}
-				}
-				if best != nil {
-					b.WriteString(subst(best.rhs, best.pos, depth+1))
-					i = j
-					continue
-				}
-			}
-			b.WriteString(w)
-			i = j
-		}
-		return b.String()
-	}
-	norm := func(s string, at token.Pos) string {
-		s = subst(s, at, 0)
-		s = pageRe.ReplaceAllString(s, "page($1)")
-		return uncast(s)
-	}
+// writesFrom returns the normalised heap writes reachable from the exported method `name`.
+func writesFrom(w *world, name string) map[string]bool {
 	out := map[string]bool{}
-	ast.Inspect(fn.Body, func(n ast.Node) bool {
-		s, ok := n.(*ast.AssignStmt)
-		if !ok || s.Tok != token.ASSIGN || len(s.Lhs) != 1 || len(s.Rhs) != 1 {
-			return true
+	w.walk(w.entry(name), func(e event) {
+		if e.kind == "write" {
+			out[number(e.a+" = "+e.b)] = true
 		}
-		if _, ok := s.Lhs[0].(*ast.SelectorExpr); !ok {
-			return true
-		}
-		out[norm(render(f, s.Lhs[0]), s.Pos())+" = "+norm(render(f, s.Rhs[0]), s.Pos())] = true
-		return true
 	})
 	return out
 }
 
-func hasSuffix(ws map[string]bool, suf string) bool {
-	for w := range ws {
-		if strings.HasSuffix(w, suf) {
-			return true
-		}
-	}
-	return false
-}
-
 // linkFacts renders the lnk* definitions.
-func linkFacts(sb *strings.Builder) {
-	mal, err := vtrans.Parse(dir + "malloc.go")
-	if err != nil {
-		die(err)
-	}
-	fre, err := vtrans.Parse(dir + "free.go")
-	if err != nil {
-		die(err)
-	}
-	df, err := vtrans.Parse(dir + "defrag.go")
-	if err != nil {
-		die(err)
-	}
-	fs := writesOf(fre, "Allocator", "uintptrFreeShared")
-	ms := writesOf(mal, "Allocator", "uintptrMallocShared")
-	cm := writesOf(df, "Allocator", "classMalloc")
-	dc := writesOf(df, "Allocator", "defragClass")
-	lp := writesOf(mal, "Allocator", "linkSharedPage")
-	np := writesOf(df, "Allocator", "newSharedPageLocal")
+// cm / cf: the (single) normalised index of the per-class accesses reachable from Malloc / Free (locks.go).
+func linkFacts(sb *strings.Builder, w *world, cm, cf string) {
+	wf := writesFrom(w, "Free")
+	wm := writesFrom(w, "Malloc")
+	wd := writesFrom(w, "DefragAllImproved")
 	if os_debug() {
-		for name, ws := range map[string]map[string]bool{"uintptrFreeShared": fs, "uintptrMallocShared": ms, "classMalloc": cm, "defragClass": dc, "linkSharedPage": lp, "newSharedPageLocal": np} {
-			for w := range ws {
-				fmt.Println("WRITE", name, ":", w)
+		for _, p := range []struct {
+			n  string
+			ws map[string]bool
+		}{{"Free", wf}, {"Malloc", wm}, {"DefragAllImproved", wd}} {
+			var l []string
+			for s := range p.ws {
+				l = append(l, s)
+			}
+			sort.Strings(l)
+			for _, s := range l {
+				fmt.Println("WRITE", p.n, ":", s)
 			}
 		}
+		fmt.Println("CLASSIDX Free:", cf, " Malloc:", cm)
 	}
-	popBack := func(ws map[string]bool) bool { return ws["a.lists[class].next.prev = 0"] }
-	popPage := func(ws map[string]bool) bool {
-		return ws["a.lists[class].nextInPage.prevInPage = 0"] && ws["a.lists[class].nextInPage.prevInPage = a.lists[class].prevInPage"]
+	// the defragmentation code is handed its class as a plain variable: $1 when it is the only variable of the fact
+	popBack := func(ws map[string]bool, c string) bool { return ws["N(N(a.lists["+c+"]).next).prev = 0"] }
+	popPage := func(ws map[string]bool, c string) bool {
+		return ws["N(N(a.lists["+c+"]).nextInPage).prevInPage = 0"] &&
+			ws["N(N(a.lists["+c+"]).nextInPage).prevInPage = N(a.lists["+c+"]).prevInPage"]
 	}
 	b := func(name, doc string, v bool) {
 		fmt.Fprintf(sb, "/-- %s -/\ndef %s : Bool := %v\n", doc, name, v)
 		facts++
 	}
-	sb.WriteString("\n/-! back-link writes present in the source (go/cmd/gen_c20/links.go) -/\n")
-	b("lnkPushGlobalBack", "uintptrFreeShared: `next.prev = p` when pushing p in front of the old head `next := a.lists[class]`",
-		fs["a.lists[int(page(p).class)].prev = p"] || fs["a.lists[class].prev = p"])
-	b("lnkPushPageBack", "uintptrFreeShared: `nextInPage.prevInPage = p` for the old head of the per-page list",
-		hasSuffix(fs, ".freeList.prevInPage = p"))
-	b("lnkPopGlobalBack", "uintptrMallocShared and classMalloc: `next.prev = 0` for the new head after popping `a.lists[class]`",
-		popBack(ms) && popBack(cm))
-	b("lnkPopPageBack", "uintptrMallocShared and classMalloc: the popped node's per-page successor gets `prevInPage = 0` / `= prevInPage`",
-		popPage(ms) && popPage(cm))
-	b("lnkPurgeBack", "defragClass, removal of an evacuated page's free slots from the global list: `next.prev = 0` / `next.prev = prev`",
-		dc["n.next.prev = 0"] && dc["n.next.prev = n.prev"])
-	b("lnkLinkPagePrev", "linkSharedPage and newSharedPageLocal: `header.prev = a.lastPage[class]`",
-		lp["p.prev = a.lastPage[class]"] && np["p.prev = a.lastPage[class]"])
-	b("lnkUnlinkPageBack", "defragClass, removal of an evacuated page from the page chain: `header.next.prev = header.prev`",
-		dc["pg.next.prev = pg.prev"])
+	sb.WriteString("\n/-! back-link writes present in the source (go/cmd/gen_c20/links.go; normal form of go/cmd/gen_c20/canon.go:\n" +
+		"    N(x) / H(x) = x read as *node / *page_header, §0 = the entry point's argument, $k = a loop variable,\n" +
+		"    C = the index of every per-class access a.lists[C], a.pages[C], … reachable from the entry point) -/\n")
+	b("lnkPushGlobalBack", "reachable from Free: `N(a.lists[C]).prev = §0` — the old head of the global list gets the freed slot as `prev`",
+		wf["N(a.lists["+cf+"]).prev = §0"])
+	b("lnkPushPageBack", "reachable from Free: `N(H(page(§0)).freeList).prevInPage = §0` — same for the old head of the per-page list",
+		wf["N(H(page(§0)).freeList).prevInPage = §0"])
+	b("lnkPopGlobalBack", "reachable from Malloc and from DefragAllImproved: `N(N(a.lists[C]).next).prev = 0` for the new head after popping `a.lists[C]`",
+		popBack(wm, cm) && popBack(wd, "$1"))
+	b("lnkPopPageBack", "reachable from Malloc and from DefragAllImproved: the popped node's per-page successor gets `prevInPage = 0` / `= N(a.lists[C]).prevInPage`",
+		popPage(wm, cm) && popPage(wd, "$1"))
+	b("lnkPurgeBack", "reachable from DefragAllImproved, removal of an evacuated page's free slots from the global list: `N(N($1).next).prev = 0` / `= N($1).prev`",
+		wd["N(N($1).next).prev = 0"] && wd["N(N($1).next).prev = N($1).prev"])
+	b("lnkLinkPagePrev", "reachable from Malloc and from DefragAllImproved: a new page's header gets `prev = a.lastPage[C]`",
+		wm["H($1).prev = a.lastPage["+cm+"]"] && wd["H($1).prev = a.lastPage[$2]"])
+	b("lnkUnlinkPageBack", "reachable from DefragAllImproved, removal of an evacuated page from the page chain: `H(H($1).next).prev = H($1).prev`",
+		wd["H(H($1).next).prev = H($1).prev"])
 }
